@@ -21,10 +21,14 @@
 (*   outOn  values returned by update() since the last reset               *)
 (*   offOut result of the last evaluate()                                  *)
 (*   viol   sampling-violation counter                                     *)
+(*   ecfg   the configuration under which the last evaluate() ran (an      *)
+(*          object that is not fed online may be re-configured between     *)
+(*          evaluations: action Reconfigure)                               *)
 (*                                                                         *)
 (*   new --Parse--> parsed --[Pastify]--> pastified                        *)
 (*        parsed/pastified --Update*/Reset--> online                       *)
 (*        parsed --Evaluate/Extend--> offline                              *)
+(*        parsed/offline --Reconfigure--> the same phase, another cfg      *)
 (*                                                                         *)
 (* Every action is given as a guard  CanX(m, ..)  and a function           *)
 (* XF(m, ..)  on object records, so that the same definitions serve the    *)
@@ -48,7 +52,7 @@ PrefixW(W, k, vs) == [v \in vs |-> SubSeq(W[v], 1, k)]
 Default(vs) == [v \in vs |-> 0]
 NewObj(c) == [cfg |-> c, phase |-> "new", phi |-> Null, inst |-> Null,
               hist |-> EmptyW(c.vars), ts |-> <<>>, on |-> <<>>, outOn |-> <<>>,
-              offOut |-> <<>>, viol |-> 0, cur |-> Default(c.vars)]
+              offOut |-> <<>>, viol |-> 0, cur |-> Default(c.vars), ecfg |-> c]
 \* the sample an update() with the (possibly partial) assignment s means
 Full(m, s) == [v \in m.cfg.vars |-> IF v \in DOMAIN s THEN s[v] ELSE m.cur[v]]
 
@@ -108,12 +112,26 @@ ResetF(m, Dev) ==
 
 \* evaluate(dataset): the offline result is the semantics of the whole trace
 CanEvaluate(m) == m.phase \in {"parsed", "offline"}
-EvaluateF(m, W, T) ==
+\* (deviation staleConfig: what is derived from the configuration - predicates' input / output kinds, tolerance band - is
+\*  memoised at the first evaluation and survives a re-configuration; the seeds of round 9 are of this kind)
+EvalCfg(m, D) == IF "staleConfig" \in D /\ m.phase = "offline" THEN m.ecfg ELSE m.cfg
+EvaluateFD(m, W, T, D) ==
+  LET c == EvalCfg(m, D) IN
   [m EXCEPT !.phase = "offline", !.hist = W, !.ts = T,
-            !.offOut = Sig(m.phi, W, Len(T), m.cfg.S, m.cfg.M),
-            !.viol = CountBad(m.cfg, T)]
+            !.offOut = Sig(m.phi, W, Len(T), c.S, c.M),
+            !.viol = CountBad(c, T),
+            !.ecfg = m.cfg]
+EvaluateF(m, W, T) == EvaluateFD(m, W, T, {})
 \* evaluate() on the trace extended by one sample: every trace is reached this way
-ExtendF(m, s, t) == EvaluateF(m, AppendW(m.hist, s, m.cfg.vars), Append(m.ts, t))
+ExtendFD(m, s, t, D) == EvaluateFD(m, AppendW(m.hist, s, m.cfg.vars), Append(m.ts, t), D)
+ExtendF(m, s, t) == ExtendFD(m, s, t, {})
+
+\* set_sampling_period() / set_var_io_type() and parse() again on an object that is not fed online: the configuration in force
+\* when the next evaluate() runs decides (interface-aware predicates, tolerance band; with written bounds also their sample counts,
+\* see Norm and TraceDt!ApplyConfig).  Scale, variables and the kind of semantics are fixed at construction.
+CanReconfigure(m, c) == /\ m.phase \in {"parsed", "offline"} /\ c # m.cfg
+                        /\ c.vars = m.cfg.vars /\ c.S = m.cfg.S /\ c.M.sem = m.cfg.M.sem     \* (the semantics is a constructor argument)
+ReconfigureF(m, c) == [m EXCEPT !.cfg = c]
 
 ---------------------------------------------------------------------------
 \* The machine over K objects (model-checking form)
@@ -144,7 +162,9 @@ Update(i, s, g) == /\ OnlineMode /\ CanUpdate(ms[i]) /\ Len(ms[i].outOn) < MaxLe
 Reset(i)      == OnlineMode /\ CanReset(ms[i]) /\ ms' = [ms EXCEPT ![i] = ResetF(ms[i], Dev)]
 Repastify(i)  == OnlineMode /\ CanRepastify(ms[i]) /\ ms[i].phase = "online" /\ ms' = [ms EXCEPT ![i] = RepastifyF(ms[i])]
 Extend(i, s, g) == /\ Mode = "offline" /\ CanEvaluate(ms[i]) /\ Len(ms[i].ts) < MaxLen
-                   /\ ms' = [ms EXCEPT ![i] = ExtendF(ms[i], s, NextStamp(ms[i], g))]
+                   /\ ms' = [ms EXCEPT ![i] = ExtendFD(ms[i], s, NextStamp(ms[i], g), Dev)]
+Reconfigure(i, c) == /\ Mode = "offline" /\ CanReconfigure(ms[i], c)
+                     /\ ms' = [ms EXCEPT ![i] = ReconfigureF(ms[i], c)]
 
 Next == \E i \in 1..K :
           \/ \E f \in Formulas : Parse(i, f)
@@ -153,6 +173,7 @@ Next == \E i \in 1..K :
           \/ \E s \in [ms[i].cfg.vars -> Vals], g \in Gaps : Extend(i, s, g)
           \/ Reset(i)
           \/ Repastify(i)
+          \/ \E c \in Configs : Reconfigure(i, c)
 
 Spec == Init /\ [][Next]_vars
 
@@ -201,7 +222,13 @@ C10cur(m) == m.phase = "online" =>
                m.cur = (IF m.ts = <<>> THEN Default(m.cfg.vars) ELSE [v \in m.cfg.vars |-> m.hist[v][Len(m.ts)]])
 
 \* C13: the counter equals the number of out-of-tolerance gaps since the last reset / of the data set
-C13(m) == m.phase \in {"online", "offline"} => m.viol = CountBad(m.cfg, m.ts)
+\* (offline: under the configuration in force at that evaluation)
+C13(m) == /\ m.phase = "online" => m.viol = CountBad(m.cfg, m.ts)
+          /\ m.phase = "offline" => m.viol = CountBad(m.ecfg, m.ts)
+\* C01 / C06 on a re-configured object: the last result is the semantics under the configuration in force at that evaluation
+C01cfg(m) == m.phase = "offline" => m.offOut = Sig(m.phi, m.hist, Len(m.ts), m.ecfg.S, m.ecfg.M)
+\* ... and an evaluation always runs under the current configuration (violated by the deviation staleConfig)
+ActReconf == [][\A i \in 1..K : (ms'[i].phase = "offline" /\ (ms'[i].ts # ms[i].ts \/ ms[i].phase # "offline")) => ms'[i].ecfg = ms'[i].cfg]_vars
 
 InvC01 == \A i \in 1..K : C01len(ms[i])
 InvC02 == \A i \in 1..K : C02(ms[i]) /\ C02prefix(ms[i])
@@ -209,6 +236,7 @@ InvC03 == \A i \in 1..K : C03(ms[i]) /\ C03nf(ms[i])
 InvC03all == \A i \in 1..K : C03all(ms[i])
 InvC10 == \A i \in 1..K : C10fresh(ms[i]) /\ C10cur(ms[i])
 InvC13 == \A i \in 1..K : C13(ms[i])
+InvC01cfg == \A i \in 1..K : C01cfg(ms[i])
 
 \* C10 as an action property: a step that empties outOn of an online object is a reset and leaves it
 \* in the initial state
@@ -221,7 +249,7 @@ ActC11 == [][\A i, j \in 1..K : (i # j /\ ms'[i] # ms[i]) => ms'[j] = ms[j]]_var
 
 \* C16: settled offline values are stable under extension of the trace
 ActC16 == [][\A i \in 1..K :
-              (ms[i].phase = "offline" /\ ms'[i].phase = "offline" /\ ~HasUnbFuture(ms[i].phi)) =>
+              (ms[i].phase = "offline" /\ ms'[i].phase = "offline" /\ ms'[i].ecfg = ms[i].ecfg /\ ~HasUnbFuture(ms[i].phi)) =>
                  \A t \in 1..Len(ms[i].offOut) : t + Hor(ms[i].phi) <= Len(ms[i].offOut) =>
                     (ms[i].offOut[t] = Undef \/ ms'[i].offOut[t] = Undef
                        \/ ms'[i].offOut[t] = ms[i].offOut[t])]_vars
